@@ -35,6 +35,12 @@ func NewNetConnectionServerCommunicator(server *dns.Server) (*NetConnectionServe
 	c := &NetConnectionServerCommunicator{
 		server: server,
 	}
+	// Every server gets a handler table of its own, in place before it starts to serve: the package-wide default
+	// table of the DNS library would hand the queries of every DNS endpoint of this process to whichever endpoint
+	// registered last.
+	mux := dns.NewServeMux()
+	mux.HandleFunc(".", c.handleRequest)
+	server.Handler = mux
 	err := make(chan error, 0)
 
 	go func() {
@@ -48,7 +54,6 @@ func NewNetConnectionServerCommunicator(server *dns.Server) (*NetConnectionServe
 		// continue
 	}
 
-	dns.HandleFunc(".", c.handleRequest)
 	return c, nil
 
 }
